@@ -139,7 +139,7 @@ def build_solver(world: dict, ckpt: dict | None, ckdir: str | None):
             enable_async_checkpointing=ckpt["async"],
         )
     elif ckpt is not None and ckdir is not None:
-        kw.update(checkpoint_dir=ckdir, checkpoint_frequency=0)
+        kw.update(checkpoint_dir=ckdir, checkpoint_frequency=0, max_checkpoints=ckpt["m"], enable_async_checkpointing=ckpt["async"])
     return cls(build_problem(world["problem"]), **kw)
 
 
